@@ -774,6 +774,9 @@ func TestVerifC20(t *testing.T) {
 		c20ReaderCase(t, out, r, dir, "random", files, 30, nil)
 	}
 
+	// ---- byte-level cases (zz_verif_C20bytes_test.go)
+	c20BytesCases(t, out, dir, rnd)
+
 	// ---- reader-reuse histories (zz_verif_C20hist_test.go)
 	nHist := out.Scale(150, 1200)
 	for i := 0; i < nHist; i++ {
